@@ -382,6 +382,8 @@ class PumpedPacketSource(ParserSource):
                     logger.exception('exception while waiting for packet')
                     if not self.terminated.done():
                         self.terminated.set_exception(error)
+                    # Nothing more will be received: tell the sink
+                    self.on_transport_lost()
                     break
 
         self.pump_task = asyncio.create_task(pump_packets())
